@@ -29,8 +29,8 @@ RECURSIVE DurAll(_, _, _)
 DurAll(u, d, plan) == IF plan = <<>> THEN u ELSE DurAll(DurStep(u, d, Head(plan)), Apply(d, Head(plan)), Tail(plan))
 
 \* a file cut back to l data items (l = -1: the header is lost as well)
-CutFile(f, l) == IF l < 0 THEN [hdr |-> FALSE, data |-> <<>>, torn |-> ""]
-                 ELSE [hdr |-> f.hdr, data |-> SubSeq(f.data, 1, l), torn |-> ""]
+CutFile(f, l) == IF l < 0 THEN [hdr |-> FALSE, data |-> <<>>, torn |-> "", ver |-> f.ver]
+                 ELSE [hdr |-> f.hdr, data |-> SubSeq(f.data, 1, l), torn |-> "", ver |-> f.ver]
 CutTo(d, cuts) == [n \in DOMAIN d |-> IF n \in DOMAIN cuts THEN CutFile(d[n], cuts[n]) ELSE d[n]]
 AtDur(d, u) == [n \in DOMAIN d |-> IF DurGet(u, n) < Len(d[n].data) THEN DurGet(u, n) ELSE Len(d[n].data)]
 \* the family of cuts: everything unsynced lost; one file at every admissible length with the others complete
